@@ -16,7 +16,8 @@ RULE = (
     "generated schemas (all namespace spellings, references, recursion, defaults, docs, aliases, "
     "custom attributes, dict-form primitives, logical attributes) plus the Apache canonical-form "
     "vectors: (1) to_parsing_canonical_form(text) == the independent canonicaliser's text, for "
-    "raw and parsed input; (2) re-applying it to json.loads(output) is a fixed point; (3) bytes "
+    "raw and parsed input, and for record schemas assembled from separately parsed named types "
+    "(random subset of the separable definitions, shared named_schemas); (2) re-applying it to json.loads(output) is a fixed point; (3) bytes "
     "written under the schema and under its canonical form are identical and decode to the same "
     "value under the other; (4) three random cosmetic rewrites per schema (doc, aliases, defaults, "
     "order, custom/logical attributes, attribute order, namespace+name <-> dotted, inherited <-> "
@@ -34,7 +35,7 @@ SHARDS = 16
 REACH = {
     "quick": {"text_compared": 6000, "fixed_points": 4000, "cross_decoded": 3000, "rewrites_compared": 15000,
               "apache_vectors": 13, "rewrite_kind_name_spelling": 500, "rewrite_kind_ref_qualified": 100,
-              "rewrite_kind_inherited_spelled_out": 200},
+              "rewrite_kind_inherited_spelled_out": 200, "piecewise_text_compared": 1000, "piecewise_text_compared_2plus_pieces": 300},
     "thorough": {"text_compared": 200000},
 }
 
@@ -72,6 +73,33 @@ def one_case(sh, fa, rng, case):
             sh.violation("canonical-form-differs", "from the parsed schema: %s" % (exc_name(got2) if st == "exc" else got2[:300]), info)
             return
     sh.count("text_compared")
+    # the same schema assembled from separately parsed named types (shared named_schemas dict)
+    if isinstance(js, dict) and js.get("type") in ("record", "error"):
+        from .c12 import separable, build_piecewise
+
+        sep = separable(js)[:5]
+        if sep:
+            subset = rng.sample(sep, rng.randint(1, len(sep)))
+            try:
+                pieces, rest = build_piecewise(js, subset)
+            except (ValueError, KeyError, IndexError):
+                pieces = None
+            if pieces:
+                shared = {}
+                st = "ok"
+                for pc in pieces + [rest]:
+                    st, pw = guard(fa.parse_schema, pc, shared)
+                    if st == "exc":
+                        break
+                if st == "ok":
+                    st, got4 = guard(tpcf, pw)
+                    if st == "exc" or got4 != want:
+                        sh.violation("canonical-form-differs", "assembled from separately parsed types %s: %s  specification: %s"
+                                     % (subset, exc_name(got4) if st == "exc" else got4[:300], want[:300]), dict(info, subset=subset))
+                        return
+                    sh.count("piecewise_text_compared")
+                    if len(pieces) >= 2:
+                        sh.count("piecewise_text_compared_2plus_pieces")
     kinds = set()
     for _ in range(3):
         js2, ks = rewrite(js, rng, rng.choice([0.2, 0.5, 0.8]))
